@@ -985,18 +985,23 @@ def optimize_vs_model(ck, ref):
 # ------------------------------------------------------------------------------------------
 # subprocesses: thread counts, fresh processes
 # ------------------------------------------------------------------------------------------
-def child_env(threads):
+def child_env(threads, hashseed=None):
     env = dict(os.environ)
     env["NUMBA_NUM_THREADS"] = str(threads)
+    # "whether or not the process is fresh": every child is a fresh interpreter with its own string-hash seed, so anything
+    # whose order comes out of a set / dict of strings keyed by hash differs between the children (seeded change C10-r2-1:
+    # the dataset groups were collected in a set, so the order of the groups in the penalty vector followed PYTHONHASHSEED)
+    child_env.counter = getattr(child_env, "counter", 0) + 1
+    env["PYTHONHASHSEED"] = str(hashseed if hashseed is not None else (int(threads) * 7919 + child_env.counter * 104729) % 4294967295)
     env["PYTHONPATH"] = os.pathsep.join([str(core.REPO), str(core.VERIF), str(core.VERIF / "pydeps")])
     env["PYTHONDONTWRITEBYTECODE"] = "1"
     return env
 
 
-def start_child(threads, names, repeat, optimize_names):
+def start_child(threads, names, repeat, optimize_names, hashseed=None):
     req = json.dumps({"names": names, "repeat": repeat, "optimize": optimize_names})
     return subprocess.Popen(["/venv/bin/python", "-m", "harness.props._c10_child"], cwd=str(core.VERIF),
-                            env=child_env(threads), stdin=subprocess.PIPE, stdout=subprocess.PIPE, stderr=subprocess.PIPE,
+                            env=child_env(threads, hashseed), stdin=subprocess.PIPE, stdout=subprocess.PIPE, stderr=subprocess.PIPE,
                             text=True), req
 
 
@@ -1160,12 +1165,15 @@ def exhaustive_pairs(ck, ref, batch):
 def run(ck):
     t0 = time.time()
     # subprocesses run while the in-process work is done
-    thread_names = ["par-noirf", "disp-irf", "artifact-osc", "multi-irf-indep"] if ck.quick else list(builtin.NAMES)
+    thread_names = ["par-noirf", "disp-irf", "artifact-osc", "multi-irf-indep", "two-groups-nnls"] if ck.quick else list(builtin.NAMES)
     thread_counts = [1, 16] if ck.quick else [1, 2, 16, 16]
     procs = []
     for i, t in enumerate(thread_counts):
         tag = str(t) if i == thread_counts.index(t) else f"{t}#{i}"
         procs.append((tag, start_child(t, thread_names, 2 if ck.quick else 3, ["disp-irf"] if ck.quick else thread_names)))
+    # light children: only the scheme with two dataset groups, one evaluation, each under another string-hash seed
+    for h in (range(4) if ck.quick else range(8)):
+        procs.append((f"1#hash{h}", start_child(1, ["two-groups-nnls"], 1, [], hashseed=h)))
 
     # corpus first
     for c in core.load_corpus(PROP):
